@@ -1,16 +1,19 @@
 import ZkVerif.Exec.Ops
+import ZkVerif.Exec.CodecOps
 open ZkVerif
 
-partial def loop (hin hout : IO.FS.Stream) : IO Unit := do
+partial def loop (hin hout : IO.FS.Stream) (st : CodecOps.DState) : IO Unit := do
   let line ← hin.getLine
   if line.isEmpty then return ()
   let args := (line.trimAscii.toString.splitOn " ").filter (· ≠ "")
-  let out := match Ops.dispatch args with
-    | some s => s
-    | none => "v:bad-op"
+  let (st', out) := match CodecOps.dispatchSt st args with
+    | (s, some r) => (s, r)
+    | (s, none) => match Ops.dispatch args with
+      | some r => (s, r)
+      | none => (s, "v:bad-op")
   hout.putStrLn out
   hout.flush
-  loop hin hout
+  loop hin hout st'
 
 def main : IO Unit := do
-  loop (← IO.getStdin) (← IO.getStdout)
+  loop (← IO.getStdin) (← IO.getStdout) {}
